@@ -80,7 +80,7 @@ CLAIMS = {
    "Two variants share the wall budget of the check: the engine variant (query-sim: each client its own engine.QueryRunner on the shared semaphore) and the distributed variant (dist-sim: one shared distributed.QueryRunner with WithMaxConcurrent, failures after slot acquisition = resolver error, query safeguard, all hosts down; cancellations after a drawn delay; host replies take 0-2 s of simulated time)."),
  "C15": ("dist-sim", "exploration", "7.15",
    "deterministic simulation: real distributed query runner, API client querier (fan-out/fan-in) and HTTP client stack (retries, back-off, request time-out) over a simulated transport and fake clock; the seeded scheduler decides which in-flight request is answered next; results of several schedules compared with each other and with a reference merge",
-   "2-6 simulated hosts with generated results (rows that collide across hosts, empty results, different First/Last, statistics) and per-host fault scripts (delays, lost connection then success, 500/502/429 then success, permanent 500, partition until the request time-out, unreachable, 200 with a cut-off body, connection reset while the body is read) are queried 3-4 times through the real runner with MaxConcurrent 1..N under different seeded schedules plus once through RunStreaming; all merged results must be equal to each other and to the reference merge of the hosts whose final outcome is success (rows as multiset with summed counters, totals, hits, statistics, interfaces, per-host statuses, First/Last, status code); partial results of the streaming run never exceed the final result.",
+   "2-6 simulated hosts with generated results (rows that collide across hosts, empty results, replies without per-host statuses, different First/Last, statistics) and per-host fault scripts (delays, lost connection then success, 500/502/429 then success, permanent 500, partition until the request time-out, unreachable, 200 with a cut-off body, connection reset while the body is read) are queried 3-4 times through the real runner with MaxConcurrent 1..N under different seeded schedules plus once through RunStreaming; all merged results must be equal to each other and to the reference merge of the hosts whose final outcome is success (rows as multiset with summed counters, totals, hits, statistics, interfaces, per-host statuses, First/Last, status code); partial results of the streaming run never exceed the final result.",
    "The hosts' own query engine is not run behind the transport (their answers are generated results serialised with the real marshalers). Row order, timing fields and error texts (only presence) are not compared. Malformed bodies (cut-off JSON, connection reset while the body is read) are injected as permanent faults only: whether the client retries them is its policy, not part of the property."),
  "C20": ("capture-sim", "exploration", "7.20",
    "deterministic simulation: real capture manager with simulated packet sources, fake clock (testing/synctest), simulated disk and a seeded scheduler at every seam; class-wise conservation oracle (orientation-tolerant) over all written blocks plus in-memory flows",
@@ -88,7 +88,7 @@ CLAIMS = {
    "Orientation of non-decisive conversations is not predicted (that is C22). The Processed/ParsingErrors counter equation is not checked."),
  "C21": ("capture-sim", "exploration", "7.21",
    "deterministic simulation: as C20 with small local-buffer limits and large bursts so that packets arrive before the lock request, between request and confirmation, inside the pause window and around the unlock; loss accepted only up to the number of reported local buffer overflows",
-   "The C20 scenario with the local buffer limit drawn from {4096, 4097, 4100, 6000, 8192, 12288, 100000, 64 MiB} and bursts of 150-750 packets: pause windows of write-outs, status calls and live snapshots contain IPv4 and IPv6 packets (probes: packets in window, IPv6 in window, buffer grown, overflow). Class-wise conservation must hold exactly unless 'local packet buffer overflow' was logged, in which case at most that many packets may be missing.",
+   "One run in four captures on two interfaces that share the pool's one local buffer (twin bursts around the rotations; conservation per interface). Otherwise the C20 scenario with the local buffer limit drawn from {4096, 4097, 4100, 6000, 8192, 12288, 100000, 64 MiB} and bursts of 150-750 packets: pause windows of write-outs, status calls and live snapshots contain IPv4 and IPv6 packets (probes: packets in window, IPv6 in window, buffer grown, overflow). Class-wise conservation must hold exactly unless 'local packet buffer overflow' was logged, in which case at most that many packets may be missing.",
    "With an overflow the lost packets are checked by count and per-class upper bounds, not attributed individually. Non-IP frames are excluded."),
  "C22": ("capture-sim", "exploration", "7.22",
    "deterministic simulation, metamorphic over arrival order: the same conversation delivered to two interfaces of one real capture manager, request first on one, response first on the other; stored orientation compared",
@@ -100,7 +100,7 @@ CLAIMS = {
    "Only the production call pattern is explored; arbitrary API sequences on a bare buffer are input-space testing and not claimed."),
  "C27": ("capture-sim", "exploration", "7.27",
    "deterministic simulation: histories of configuration updates over a small interface universe (guarded host-link hook) with traffic and clock steps (0 s, 0.4 s, 2 s, 299 s, 301 s) in between; selection model compared with running captures and their settings (guarded accessor); conservation per interface at the end",
-   "2-6 updates (explicit names, explicit disables, overlapping regular expressions with different settings, auto-detection with excludes, changes of every CaptureConfig field) with packets on every running interface and a clock step before each update, then shutdown. After each update: running captures = selected interfaces, settings = those the configuration assigns (ambiguous selections are re-applied 16 times and must not change); at the end everything read from any interface must be in the database; a logged 'failed to perform writeout' is a violation.",
+   "2-6 updates (explicit names, explicit disables, overlapping regular expressions with different settings, auto-detection with excludes, changes of every CaptureConfig field) with packets on every running interface and a clock step before each update, then shutdown; in one update of four the capture source of one interface cannot be opened (injected fault), after which the same configuration is applied again with the fault cleared and the interface must come up. After each update: running captures = selected interfaces, settings = those the configuration assigns (ambiguous selections are re-applied 16 times and must not change); at the end everything read from any interface must be in the database; a logged 'failed to perform writeout' is a violation.",
    "Which of two overlapping patterns wins is not demanded. Runs depend on Go map iteration order inside goProbe (enable/disable lists), so replay and minimisation steps are retried (RuntimeRandom)."),
  "C29": ("capture-sim", "exploration", "7.29",
    "deterministic simulation: real engine live queries (WithLiveData) against the running capture manager, bracketed by direct snapshots of the in-memory flows; reference aggregation over stored plus in-memory flows; paired run without live queries",
